@@ -13,7 +13,7 @@ cp /repo/go.sum go.sum.repo 2>/dev/null && cat go.sum.repo go.sum.extra 2>/dev/n
 TAGS="verif"
 RACE=""
 case "$ID" in
-  C19) RACE="-race" ;;
+  C19) RACE="-race"; TAGS="verif logtrace" ;;
 esac
 if ! go build $RACE -tags "$TAGS" -o "$BIN/vcheck" ./cmd/vcheck > "$BIN/build.log" 2>&1; then
   cat "$BIN/build.log"
